@@ -28,6 +28,11 @@ pub enum Flavour {
 /// Marker payload used to unwind out of library code when the read budget is exceeded.
 pub struct BudgetExceeded(pub String);
 
+/// Marker payload: a blocking read on a peer that stays connected and silent (it would block
+/// for ever). Not a fault of the code under test by itself — the oracle decides whether the
+/// operation had any business reading at that point.
+pub struct Starved;
+
 #[derive(Debug, Default)]
 pub struct ReaderStats {
     pub reads: usize,
@@ -56,6 +61,9 @@ struct ReaderState {
     op_reads: usize,
     op_budget: usize,
     op_reads_after_end: usize,
+    /// the peer never closes: after the last byte reads block (blocking) / stay Pending (async)
+    silent: bool,
+    starved: bool,
     stats: ReaderStats,
 }
 
@@ -84,8 +92,24 @@ impl SimReader {
             op_reads: 0,
             op_budget: 0,
             op_reads_after_end: 0,
+            silent: false,
+            starved: false,
             stats: ReaderStats::default(),
         })))
+    }
+
+    pub fn set_silent(&self, silent: bool) {
+        self.0.borrow_mut().silent = silent;
+    }
+
+    /// Did the last operation end up waiting for bytes of a silent peer?
+    pub fn take_starved(&self) -> bool {
+        std::mem::take(&mut self.0.borrow_mut().starved)
+    }
+
+    fn exhausted_and_silent(&self) -> bool {
+        let s = self.0.borrow();
+        s.silent && s.pos >= s.data.len()
     }
 
     /// Start a new `connect`/`receive` operation: reset the per-operation read budget.
@@ -199,6 +223,10 @@ impl Read for SimReader {
         if let Some(kind) = self.transient_now() {
             return Err(io::Error::new(kind, "simulated transient read error"));
         }
+        if self.exhausted_and_silent() {
+            self.0.borrow_mut().starved = true;
+            std::panic::panic_any(Starved);
+        }
         Ok(self.do_read(buf))
     }
 }
@@ -232,6 +260,12 @@ impl AsyncRead for SimReader {
         }
         if let Some(kind) = self.transient_now() {
             return Poll::Ready(Err(io::Error::new(kind, "simulated transient read error")));
+        }
+        if self.exhausted_and_silent() {
+            // nobody will ever wake this task: the executor reports the lost wake-up and the
+            // driver turns it into `Terminal::Starved`
+            self.0.borrow_mut().starved = true;
+            return Poll::Pending;
         }
         let n = {
             let dst = buf.initialize_unfilled();
@@ -359,6 +393,8 @@ pub struct DriveInput<'a> {
     /// write a command (into a sink) before every `receive()`: what a pipelining caller does;
     /// sending must not touch what has been received
     pub send_between: bool,
+    /// the peer never closes the connection: after its last byte it stays silent
+    pub silent: bool,
 }
 
 pub fn kind_of(name: &str) -> io::ErrorKind {
@@ -371,6 +407,9 @@ pub fn kind_of(name: &str) -> io::ErrorKind {
 }
 
 fn panic_terminal(payload: Box<dyn std::any::Any + Send>) -> Terminal {
+    if payload.downcast_ref::<Starved>().is_some() {
+        return Terminal::Starved;
+    }
     if let Some(b) = payload.downcast_ref::<BudgetExceeded>() {
         return Terminal::ReadBudget(b.0.clone());
     }
@@ -407,6 +446,7 @@ pub fn drive(input: &DriveInput<'_>) -> Outcome {
     if let Some((at, kind)) = &input.error_at {
         handle.set_error_at(*at, kind_of(kind));
     }
+    handle.set_silent(input.silent);
     match input.flavour {
         Flavour::Blocking => drive_blocking(reader, &handle, max_responses, input, &mut out),
         Flavour::Async => drive_async(reader, &handle, max_responses, input, &mut out),
@@ -451,6 +491,7 @@ fn drive_blocking(
         match catch_unwind(AssertUnwindSafe(|| conn.receive())) {
             Err(p) => {
                 out.terminal = panic_terminal(p);
+                handle.take_starved();
                 return;
             }
             Ok(Ok(Some(r))) => out.responses.push(cresp(&r)),
@@ -484,6 +525,13 @@ fn drive_blocking(
     }
 }
 
+fn exec_terminal_of(handle: &SimReader, e: ExecError) -> Terminal {
+    if matches!(e, ExecError::LostWakeup) && handle.take_starved() {
+        return Terminal::Starved;
+    }
+    exec_terminal(e)
+}
+
 fn exec_terminal(e: ExecError) -> Terminal {
     match e {
         ExecError::LostWakeup => Terminal::PollBudget,
@@ -513,7 +561,7 @@ fn drive_async(
             return;
         }
         Ok(Err(e)) => {
-            out.connect = Err(exec_terminal(e));
+            out.connect = Err(exec_terminal_of(handle, e));
             return;
         }
         Ok(Ok(Err(e))) => {
@@ -541,7 +589,7 @@ fn drive_async(
                 return;
             }
             Ok(Err(e)) => {
-                out.terminal = exec_terminal(e);
+                out.terminal = exec_terminal_of(handle, e);
                 return;
             }
             Ok(Ok(Ok(Some(r)))) => out.responses.push(cresp(&r)),
@@ -568,7 +616,7 @@ fn drive_async(
                 return;
             }
             Ok(Err(e)) => {
-                out.after.push(exec_terminal(e));
+                out.after.push(exec_terminal_of(handle, e));
                 return;
             }
             Ok(Ok(Ok(Some(_)))) => out.after.push(Terminal::Limit),
